@@ -65,4 +65,5 @@ A_smMembers       == [][P(C03_smRotateKeepsMembers)]_vars
 A_newcomerFlag    == [][C05_newcomerFlag(sm, act'.op, act'.res, sm', NewSeats)]_vars
 A_continuity      == [][P(C05_continuity)]_vars
 A_rejoinTerms     == [][P(C05_rejoinTerms)]_vars
+A_waitsUntilRot   == [][P(C05_waitsUntilRotation)]_vars
 =============================================================================
